@@ -80,6 +80,6 @@ example : (Lapper.run [(⟨0, 100, 1⟩ : Iv Nat), ⟨40, 41, 2⟩, ⟨50, 50, 3
 /-- map-level witness: two chromosomes whose names are prefixes of each other, a duplicate with its
 own value, a book-ended record (not a hit) and a bulk + insert history -/
 example : GMap.find (GMap.build [(⟨[1], 10, 20⟩, 0), (⟨[1, 2], 10, 20⟩, 1), (⟨[1], 20, 30⟩, 2)] [(⟨[1], 10, 20⟩, 3)]) ⟨[1], 15, 20⟩
-    = [(⟨[1], 10, 20⟩, 0), (⟨[1], 10, 20⟩, 3)] := by decide
+    = [(⟨[1], 10, 20⟩, 3), (⟨[1], 10, 20⟩, 0)] := by decide
 
 end BV
